@@ -915,8 +915,11 @@ func (w *world) pickReturned(pp *pendingPick, out pickOut, keyed, refErr bool, R
 			mn := minInflight()
 			switch {
 			case mn < w.cfg.WM:
+				if len(w.cc.created) > 0 {
+					w.fail("C03|C02", "A.pick.6a.grow", "%s: a channel was added although a READY channel is below the watermark (min load %d < %d) (%s)", what, mn, w.cfg.WM, w.describe())
+				}
 				if err != nil || !inSnap(placed) || w.slots[placed].inflight != mn {
-					w.fail("C02", "A.pick.6a", "%s: min load %d < watermark %d: placed=%d err=%v snapshot=%v loads=%s", what, mn, w.cfg.WM, placed, err, p.snap, w.describe())
+					w.fail("C02|C03", "A.pick.6a", "%s: min load %d < watermark %d: placed=%d err=%v snapshot=%v loads=%s", what, mn, w.cfg.WM, placed, err, p.snap, w.describe())
 				}
 				if len(p.snap) >= 2 {
 					w.labels["least-loaded-of-several"]++
